@@ -707,31 +707,33 @@ def execute(plan):
 
 
 def explain(plan, inf, actual):
-    """where does the value Hy produced come from, according to the model?"""
+    """where does the value Hy produced come from, according to the model? -> (class, needs_want)
+    The class is the root-cause proxy of the bucket: the kind of namespace whose definition was used instead."""
     if actual == "NameError":
-        return "no-macro"
+        return "no-macro", True
     key = inf["key"]
     if key in CORE and actual == CORE[key]:
-        return "core"
+        return "core", True
     if isinstance(actual, int):
         for b in plan["allb"].get(key, []):
             if b["v"] == actual:
                 f = b["frame"]
-                where = "module" if f.kind == "module" else "local"
-                if f.kind != "module":
-                    if f not in inf["stack"]:
-                        where = "local-scope-not-enclosing" if (f.closed_at is None or f.closed_at > inf["opi"]) else "closed-local-scope"
-                    elif f is not inf["stack"][-1]:
-                        where = "outer-local"
-                    else:
-                        where = "innermost-local"
-                if b["opi"] > inf["opi"]:
-                    where += "(defined-later)"
-                return "%s:%s" % (where, b["how"])
+                later = "(defined-later)" if b["opi"] > inf["opi"] else ""
+                if f.kind == "module":
+                    return "module" + later, True
+                if f not in inf["stack"]:
+                    if f.closed_at is None or f.closed_at > inf["opi"]:
+                        return "scope-not-enclosing(%s)" % f.kind, False
+                    return "closed-scope(%s)" % f.kind, False
+                if f is not inf["stack"][-1]:
+                    return "outer-local" + later, True
+                return "innermost-local" + later, True
         if actual >= 100000:
-            return "eval-macros-of-another-call" if inf["kind"] != "eval" or actual // 100 - 1000 != inf["opi"] else "eval-macros"
-        return "macro-of-another-name"
-    return "other"
+            if inf["kind"] == "eval" and actual // 100 - 1000 == inf["opi"]:
+                return "eval-macros", True
+            return "eval-macros-of-another-call", False
+        return "macro-of-another-name", True
+    return "other", True
 
 
 def compare(plan, obs):
@@ -759,8 +761,9 @@ def compare(plan, obs):
                 extra = [x for x in a if x not in e] if isinstance(a, list) else a
                 out.append(("local-macros|%s" % ("missing" if miss else "extra"), dict(record=rid, expected=e, actual=a, missing=miss, extra=extra)))
             else:
-                out.append(("%s|want=%s|got=%s" % (inf["kind"], inf["want"], explain(plan, inf, a)),
-                            dict(record=rid, name=inf["name"], op=inf["opi"], expected=e, actual=a)))
+                cls, needs_want = explain(plan, inf, a)
+                out.append(("%s|got=%s%s" % (inf["kind"], cls, "|want=" + inf["want"] if needs_want else ""),
+                            dict(record=rid, name=inf["name"], op=inf["opi"], expected=e, actual=a, expected_from=inf["want"])))
     for rid in got:
         if rid not in plan["expect"]:
             out.append(("record-unexpected", dict(record=rid)))
